@@ -653,6 +653,8 @@ def search(res, rng, disagreements, pfail):
         break
   # 3. fresh programs
   pg = G.ProgGen(rng)
+  pg.dup_slots = True     # a shape K's generator does not draw (kept out of K: one distribution, one coverage report)
+  pg.slots_p = 0.3
   t0 = time.time()
   while time.time() - t0 < 60 and len(found) < 2:
     src = pg.program()
